@@ -1037,6 +1037,46 @@ class HState:
                     # "\HasChildren exactly when an existing mailbox lies below it": whatever filter the listing applies
                     if ("\\HasChildren" in at) != w_["haschildren"] or ("\\HasNoChildren" in at) == w_["haschildren"]:
                         self.fail("C17.haschildren-attr", {"cmd": cmd, "pat": pat, "want": w_["haschildren"]}, w_, sorted(at))
+        # the advertised LIST extensions (RFC 5258 / 5819) are still LIST: selection option SUBSCRIBED lists what LSUB lists,
+        # return option SUBSCRIBED marks exactly the subscribed names, CHILDREN reports the same \HasChildren, STATUS
+        # reports the model's message count for every selectable name listed
+        for ref, pat in (("", "*"), ("", "%"), ("a/", "*")):
+            for form, base, lsub in ((f'LIST (SUBSCRIBED) {_q(ref)} {_q(pat)}', "LIST", True),
+                                     (f'LIST {_q(ref)} {_q(pat)} RETURN (SUBSCRIBED CHILDREN)', "LIST", False),
+                                     (f'LIST {_q(ref)} {_q(pat)} RETURN (STATUS (MESSAGES))', "LIST", False)):
+                r, resps = o.do(form)
+                if r is None or r.typ != "OK":
+                    self.fail("C17.list-failed", {"cmd": form.split('"')[0].strip(), "ref": ref, "pat": pat}, "OK", str(r))
+                    continue
+                got, status = {}, {}
+                for x in resps:
+                    if x.kind == "untagged" and x.typ == "LIST" and len(x.data) >= 3:
+                        nm = x.data[2]
+                        nm = bytes(nm).decode("latin-1") if isinstance(nm, bytes) else str(nm)
+                        got[nm] = {str(a) for a in (x.data[0] or [])}
+                    if x.kind == "untagged" and x.typ == "STATUS" and len(x.data) >= 2:
+                        nm = x.data[0]
+                        nm = bytes(nm).decode("latin-1") if isinstance(nm, bytes) else str(nm)
+                        items = [str(v) for v in (x.data[1] or [])]
+                        if "MESSAGES" in [i.upper() for i in items]:
+                            status[canon_name(nm)] = int(items[[i.upper() for i in items].index("MESSAGES") + 1])
+                want = NS.list_expect(self.model, ref, pat, lsub=lsub)
+                det = {"cmd": "LIST-EXTENDED", "form": form.split(" ")[1] if lsub else form.split("RETURN ")[1], "pat": pat}
+                if set(got) != set(want):
+                    self.fail("C17.list-names", dict(det, ref=ref, missing=sorted(set(want) - set(got))[:3], extra=sorted(set(got) - set(want))[:3]),
+                              sorted(want), sorted(got))
+                    continue
+                for nm, w_ in want.items():
+                    at = got[nm]
+                    mbm = self.model.mboxes.get(nm)
+                    if "CHILDREN" in form or lsub:
+                        if ("\\HasChildren" in at) != w_["haschildren"] or ("\\HasNoChildren" in at) == w_["haschildren"]:
+                            self.fail("C17.haschildren-attr", dict(det, want=w_["haschildren"]), w_, sorted(at))
+                    if "RETURN (SUBSCRIBED" in form and mbm is not None and ("\\Subscribed" in at) != bool(mbm.subscribed):
+                        self.fail("C17.subscribed-attr", dict(det, want=bool(mbm.subscribed)), bool(mbm.subscribed), sorted(at))
+                    if "STATUS" in form and mbm is not None and not mbm.noselect:
+                        if status.get(nm) != len(mbm.msgs):
+                            self.fail("C17.list-status", dict(det), len(mbm.msgs), status.get(nm))
         # a deleted mailbox is not selectable; an existing one is
         for name in self.cfg.get("names", ()):
             mb = self.model.mb(name)
